@@ -37,6 +37,11 @@ pub struct GenParams {
     /// emit sections whose vector is empty (count 0) instead of omitting them
     #[serde(default)]
     pub empty_sections: bool,
+    /// 0: data-segment users wherever the body generator puts them.  1-3: NO passive data segment and exactly
+    /// one `data.drop` in the whole module, in the last (1), first (2) or a seeded (3) local function -- the
+    /// DataCount section then hinges on finding that one user (walrus searches the functions for it)
+    #[serde(default)]
+    pub lone_data_user: u8,
 }
 
 impl GenParams {
@@ -68,6 +73,7 @@ impl GenParams {
             plant_errors: 0,
             passive_bias: rng.chance(1, 3),
             empty_sections: rng.chance(1, 8),
+            lone_data_user: if rng.chance(1, 6) { 1 + rng.below(3) as u8 } else { 0 },
         }
     }
 }
@@ -132,6 +138,8 @@ struct Env {
     n_data: u32,
     passive_funcref_elems: Vec<u32>,
     declared_funcs: Vec<u32>,
+    /// bodies must not use data segments on their own (lone_data_user)
+    no_data_users: bool,
     p: GenParams,
 }
 
@@ -1030,7 +1038,7 @@ impl<'e> Body<'e> {
                     self.emit(I::Nop)
                 }
             }
-            2 if self.env.n_data > 0 => {
+            2 if self.env.n_data > 0 && !self.env.no_data_users => {
                 if let Some(m) = self.pick_mem() {
                     let d = self.rng.below(self.env.n_data as u64) as u32;
                     self.addr(m, depth);
@@ -1042,7 +1050,7 @@ impl<'e> Body<'e> {
                     self.emit(I::Nop)
                 }
             }
-            3 if self.env.n_data > 0 => {
+            3 if self.env.n_data > 0 && !self.env.no_data_users => {
                 let d = self.rng.below(self.env.n_data as u64) as u32;
                 self.data_users += 1;
                 self.emit(I::DataDrop(d))
@@ -1432,10 +1440,11 @@ pub fn generate(p: &GenParams) -> Generated {
     }
 
     // ---- data segments
-    let n_data = if mems.is_empty() { if p.bulk { rng.below(2) } else { 0 } } else { rng.small(4) } as u32;
+    let lone = p.lone_data_user != 0 && p.bulk && !mems.is_empty() && p.n_funcs > 0;
+    let n_data = if mems.is_empty() { if p.bulk { rng.below(2) } else { 0 } } else if lone { 1 + rng.small(3) } else { rng.small(4) } as u32;
     let mut data_segs: Vec<(Option<(u32, we::ConstExpr)>, Vec<u8>)> = Vec::new();
     for _ in 0..n_data {
-        let passive = mems.is_empty() || (p.bulk && (rng.chance(1, 3) || p.passive_bias && rng.bool()));
+        let passive = !lone && (mems.is_empty() || (p.bulk && (rng.chance(1, 3) || p.passive_bias && rng.bool())));
         let len = rng.small(40) as usize;
         let bytes = rng.bytes(len);
         if passive {
@@ -1577,6 +1586,7 @@ pub fn generate(p: &GenParams) -> Generated {
         n_data,
         passive_funcref_elems: passive_funcref_elems.clone(),
         declared_funcs: declared_funcs.clone(),
+        no_data_users: lone,
         p: p.clone(),
     };
 
@@ -1593,6 +1603,11 @@ pub fn generate(p: &GenParams) -> Generated {
         v.sort();
         v.dedup();
         v
+    };
+    let lone_at: u32 = match p.lone_data_user {
+        1 => p.n_funcs.saturating_sub(1),
+        2 => 0,
+        _ => rng.fork("lone").below(p.n_funcs.max(1) as u64) as u32,
     };
     let big_ones: Vec<u32> = if p.size_mode == 2 { (0..3).map(|_| rng.below(p.n_funcs as u64) as u32).collect() } else { vec![] };
     for k in 0..p.n_funcs {
@@ -1635,7 +1650,7 @@ pub fn generate(p: &GenParams) -> Generated {
             boundaries.push(b.out.len());
             guard += 1;
         }
-        if p.passive_bias && p.bulk && n_data > 0 && b.rng.chance(1, 4) {
+        if (!lone && p.passive_bias && p.bulk && n_data > 0 && b.rng.chance(1, 4)) || (lone && k == lone_at) {
             let d = b.rng.below(n_data as u64) as u32;
             b.data_users += 1;
             b.out.push(I::DataDrop(d));
